@@ -177,6 +177,19 @@ def run_script(binary, text, timeout=600, env=None):
         return -9, out.splitlines(), 'timeout'
 
 
+def line_match(impl, model):
+    """comparer conventions of PROTOCOL.md: `*` matches anything, `A || B` matches any alternative"""
+    if impl == model or model == '*':
+        return True
+    if ' || ' in model:
+        return impl in model.split(' || ')
+    return False
+
+
+def lists_match(io, mo):
+    return io is not None and mo is not None and len(io) == len(mo) and all(line_match(a, b) for a, b in zip(io, mo))
+
+
 def compare_case(engine, lines, timeout=120):
     """Run one case on both sides. Returns None if equal, else dict describing the first difference."""
     text = 'engine %s\ncase 0\n' % engine + '\n'.join(lines) + '\n'
@@ -186,7 +199,7 @@ def compare_case(engine, lines, timeout=120):
     for i in range(n):
         a = impl[i] if i < len(impl) else '<no output: implementation process ended (rc=%s) %s>' % (rc1, (err1 or '').strip()[-300:])
         b = model[i] if i < len(model) else '<no output: model ended (rc=%s)>' % rc2
-        if a != b:
+        if not line_match(a, b):
             return {'line': i - 2, 'op': lines[i - 2] if i >= 2 else '<header>', 'impl': a, 'model': b}
     return None
 
@@ -255,7 +268,7 @@ def differential(engine, cases, result, prop, tier, known=None, keep_prefix=1, n
         cov['evaluations'] += 1
         io = ic[i][1] if i < len(ic) else None
         mo = mc[i][1] if i < len(mc) else None
-        if io is not None and mo is not None and io == mo and len(io) == len(c):
+        if lists_match(io, mo) and len(io) == len(c):
             h = hashlib.sha1('\n'.join(c).encode()).hexdigest()
             if nontrivial is None or nontrivial(c, io):
                 distinct.add(h)
@@ -342,7 +355,7 @@ def differential_interactive(engine, gen, n, rng, tier, result, nontrivial=None,
     for i, (c, io) in enumerate(recs):
         cov['evaluations'] += 1
         mo = mc[i][1] if i < len(mc) else None
-        if mo is not None and io == mo:
+        if lists_match(io, mo):
             if nontrivial is None or nontrivial(c, io):
                 distinct.add(hashlib.sha1('\n'.join(c).encode()).hexdigest())
                 if len(cov['samples']) < 3:
@@ -354,7 +367,7 @@ def differential_interactive(engine, gen, n, rng, tier, result, nontrivial=None,
             continue
         d = compare_case(engine, c)
         if d is None:
-            first = next((j for j in range(len(c)) if mo is None or j >= len(mo) or io[j] != mo[j]), -1)
+            first = next((j for j in range(len(c)) if mo is None or j >= len(mo) or not line_match(io[j], mo[j])), -1)
             d = {'line': first, 'op': c[first] if first >= 0 else '?', 'impl': io[first] if first >= 0 else '?',
                  'model': (mo[first] if mo and first < len(mo) else '<none>'), 'note': 'differs in the interactive run only'}
             small = c
